@@ -190,7 +190,7 @@ def run(repo: Repo, chk: Check):
               f"{g.path}:{hc.lineno}")
     # ---------------------------------------------------------------- R12.c template
     u = repo.mod("utils")
-    ev = u.func("eval_constexpr")
+    ev = u.anchor("eval_constexpr")
     chk.saw("utils", "eval_constexpr")
     ecfg = CFG(ev)
     erd = ReachingDefs(ecfg)
